@@ -208,7 +208,7 @@ impl Gen {
         Gen { rng: StdRng::seed_from_u64(seed), items: Vec::new(), alive: Vec::new(), inputs: Vec::new(), max_cid }
     }
     fn cid(&mut self) -> i32 {
-        if self.rng.gen_range(0..20) == 0 {
+        if self.rng.gen_range(0..if self.max_cid > 63 { 4 } else { 20 }) == 0 {
             self.rng.gen_range(0..=self.max_cid)
         } else {
             self.rng.gen_range(0..=self.max_cid.min(15))
@@ -394,7 +394,7 @@ fn drive(args: &[String]) {
         let quick = !thorough;
         for sno in 0..nstreams {
             let ver = if sno % 3 == 2 { 1 } else { 2 };
-            let mut g = Gen::new(seed.wrapping_mul(1000003) ^ (fno * 100 + sno) as u64, if sno % 2 == 0 { 63 } else { 4095 });
+            let mut g = Gen::new(seed.wrapping_mul(1000003) ^ (fno * 100 + sno) as u64, if sno % 2 == 1 { 63 } else { 4095 });
             let ticks = match sno {
                 0 => if quick { 6 } else { 12 },
                 1 => if thorough { 250 } else { 16 },
